@@ -667,3 +667,239 @@ async def replay_d11():
         out["choice"] = j.step.label if j else None
         out["after"] = await _snap(w)
     return out
+
+
+# ---------------------------------------------------------------------------------------------
+# Targeted family: a file with several consumers of different need; the higher-need one drops its edge
+# ---------------------------------------------------------------------------------------------
+
+MULTI_VARIANTS = [
+    # (name, consumers of f.txt besides the dropper, how the dropper loses its edge)
+    ("amend-drop+optional-initial", [("C2", OPTIONAL, "root", False)], "no_amend"),
+    ("amend-drop+optional-initial+detached-default", [("C2", OPTIONAL, "root", False), ("C3", DEFAULT, "sub2", True)], "no_amend"),
+    ("amend-drop+optional-in-other-subplan", [("C2", OPTIONAL, "sub2", False)], "no_amend"),
+    ("amend-drop+two-optional", [("C2", OPTIONAL, "root", False), ("C4", OPTIONAL, "sub2", False)], "no_amend"),
+    ("initial-dropped-by-partial-recycle+optional", [("C2", OPTIONAL, "root", False)], "partial_recycle"),
+    ("initial-dropped-by-creator+optional", [("C2", OPTIONAL, "sub2", False)], "creator_drops"),
+    ("amend-drop+default-stays", [("C2", DEFAULT, "root", False)], "no_amend"),   # control: P stays needed
+]
+
+
+class _Mini:
+    """A minimal executor on the real Workflow + Scheduler: runs every dispatched job to completion,
+    one at a time, with scripted step behaviours (what a step defines / amends when it runs)."""
+
+    def __init__(self, w):
+        self.w = w
+        self.defines: dict[str, list] = {}     # label -> list of define_step kwargs
+        self.statics: dict[str, list] = {}     # label -> static paths declared when it runs
+        self.amends: dict[str, list] = {}      # label -> paths amended as inputs when it runs
+        self.dirty: set[str] = set()           # labels whose stored hash no longer matches
+        self.salt = 0
+        self.log: list = []
+        self.ticks: list = []                  # snapshots after the meta updates of every tick
+
+    async def drive(self, maxjobs=60):
+        from stepup.core.enums import HashUpdateCause
+        from .sched_common import _fh, _step_hash, snapshot
+        w = self.w
+        wf, sched, db = w.wf, w.sched, w.db
+        for _ in range(maxjobs):
+            job = await sched.pop_next_job()
+            async with db:
+                adapter = type("S", (), {"db": db, "wf": wf, "sched": sched})()
+                self.ticks.append((snapshot(adapter), job.step.i if job else None))
+            if job is None:
+                return
+            step = job.step
+            label = step.label
+            async with db:
+                state = step.get_state()
+            if state == StepState.CHECKING:
+                if label not in self.dirty:
+                    async with db:
+                        outs = {str(r.path): _fh(str(r.path), self._salt()) for r in step.out_paths()
+                                if r.state != FileState.BUILT}
+                        wf.update_file_hashes(outs, cause=HashUpdateCause.SUCCEEDED)
+                        step.mark_completed(job.step_hash, False)
+                    self.log.append(("skip", label))
+                    continue
+                async with db:
+                    step.reset_for_rerun()
+                    step.delete_hash()
+                    step.set_state(StepState.PENDING)
+                self.log.append(("mismatch", label))
+                continue
+            self.dirty.discard(label)
+            async with db:
+                step.reset_for_rerun()
+            self.log.append(("run", label))
+            if self.statics.get(label):
+                async with db:
+                    w.confirm_static(step, self.statics[label])
+            for kw in self.defines.get(label, []):
+                async with db:
+                    wf.define_step(step, **kw)
+            unavailable = set()
+            if self.amends.get(label):
+                async with db:
+                    unavailable, _unfresh, _ = wf.amend_step(step, inp_paths=self.amends[label],
+                                                            ran_concurrently=sched.ran_concurrently)
+            async with db:
+                if unavailable:
+                    step.mark_completed(None, True)
+                    self.log.append(("defer", label))
+                else:
+                    outs = {str(r.path): _fh(str(r.path), self._salt()) for r in step.out_paths()}
+                    wf.update_file_hashes(outs, cause=HashUpdateCause.SUCCEEDED)
+                    step.mark_completed(_step_hash(label, self._salt()), False)
+        raise RuntimeError("mini executor: too many jobs (livelock?)")
+
+    def _salt(self):
+        self.salt += 1
+        return self.salt
+
+    async def edit(self, path, consumers_dirty=()):
+        from stepup.core.enums import HashUpdateCause
+        from .sched_common import _fh
+        async with self.w.db:
+            self.w.wf.update_file_hashes({path: _fh(path, self._salt())}, cause=HashUpdateCause.EXTERNAL)
+        self.dirty.update(consumers_dirty)
+
+
+from stepup.core.enums import FileState  # noqa: E402
+
+
+async def multi_consumer_case(variant):
+    """One member of the family on the real code. Returns observations for the generic oracle:
+    the tick snapshots (after the meta updates) with the dispatched node, the revert event, and the
+    dispatches of the phase after an edit of the optional producer's input."""
+    from stepup.core.finalize import revert_optional_steps
+    from .sched_common import snapshot
+    from .wfutil import WF
+
+    name, others, how = variant
+
+    async def reporter(*a, **k):
+        return None
+
+    out = {"variant": name}
+    async with WF() as w:
+        wf, sched, db = w.wf, w.sched, w.db
+        async with db:
+            w.plan.set_state(StepState.PENDING)   # let the mini executor run the plan as well
+        m = _Mini(w)
+        dropper_amends = how == "no_amend"
+        m.statics["./plan.py"] = ["p_in.txt", "c1_in.txt", "q_in.txt", "q2_in.txt"]
+        root_defs = [dict(command="P", inp_paths=["p_in.txt"], out_paths=["f.txt"], need=Need.OPTIONAL),
+                     dict(command="Q", inp_paths=["q_in.txt"], need=Need.PLAN),
+                     dict(command="Q2", inp_paths=["q2_in.txt"], need=Need.PLAN)]
+        c1 = dict(command="C1", inp_paths=["c1_in.txt"] + ([] if dropper_amends else ["f.txt"]), out_paths=["c1.txt"])
+        m.defines["Q"] = [c1]
+        if dropper_amends:
+            m.amends["C1"] = ["f.txt"]
+        m.defines["Q2"] = []
+        for label, need, where, _detached in others:
+            kw = dict(command=label, inp_paths=["f.txt"], out_paths=[label.lower() + ".txt"], need=Need(need))
+            (root_defs if where == "root" else m.defines["Q2"]).append(kw)
+        m.defines["./plan.py"] = root_defs
+        await m.drive()
+        # consumers that must be detached: their sub-plan reruns without defining them
+        drop_from_q2 = [label for label, _n, where, det in others if det and where == "sub2"]
+        if drop_from_q2:
+            m.defines["Q2"] = [kw for kw in m.defines["Q2"] if kw["command"] not in drop_from_q2]
+            await m.edit("q2_in.txt", ["Q2"])
+            await m.drive()
+        out["phase1_log"] = list(m.log)
+        # -- the higher-need consumer loses its edge
+        if how == "no_amend":
+            m.amends["C1"] = []
+            await m.edit("c1_in.txt", ["C1"])
+        elif how == "partial_recycle":
+            m.defines["Q"] = [dict(command="C1", inp_paths=["c1_in.txt"], out_paths=["c1.txt"])]
+            await m.edit("q_in.txt", ["Q"])
+        elif how == "creator_drops":
+            m.defines["Q"] = []
+            await m.edit("q_in.txt", ["Q"])
+        m.ticks.clear()
+        await m.drive()
+        out["ticks"] = list(m.ticks)
+        adapter = type("S", (), {"db": db, "wf": wf, "sched": sched})()
+        async with db:
+            out["before_revert"] = snapshot(adapter)
+        await revert_optional_steps(wf, reporter)
+        out["to_be_deleted"] = sorted((p, "none" if h is None else "hash") for p, h in wf.to_be_deleted.items()
+                                      if not p.endswith("/"))
+        wf.to_be_deleted.clear()
+        async with db:
+            out["after_revert"] = snapshot(adapter)
+        # -- next phase: the input of the optional producer is edited
+        await m.edit("p_in.txt", ["P"])
+        m.ticks.clear()
+        await m.drive()
+        out["phase3_ticks"] = list(m.ticks)
+        out["log"] = list(m.log)
+    return out
+
+
+def judge_multi_consumer(obs) -> list[tuple[str, str]]:
+    """Generic oracle on one case: (symptom, detail) list; empty when everything is as defined."""
+    bad = []
+    for snap, choice in obs["ticks"] + obs["phase3_ticks"]:
+        v = View(snap)
+        for col, k, cached, spec in v.cached_vs_spec():
+            bad.append((f"cached-{col}", f"step {label_of(snap, k)!r}: {col} = {cached}, definition {spec}"))
+        if choice is not None:
+            need = v.need_spec(choice)
+            if not (need > OPTIONAL and need > snap["threshold"]):
+                bad.append(("unneeded-step-dispatched", f"step {label_of(snap, choice)!r} dispatched with need_spec {need}"))
+    vb = View(obs["before_revert"])
+    after = {s["key"]: s for s in obs["after_revert"]["steps"]}
+    exp_queue = {}
+    for k, s in vb.steps.items():
+        if s["detached"]:
+            continue
+        opt = vb.need_spec(k) == OPTIONAL
+        if opt and after[k]["state"] != PENDING:
+            bad.append(("optional-step-not-reverted", f"step {s['label']!r} (need_spec OPTIONAL, cached {s['ineed']}) left in state {after[k]['state']}"))
+        if not opt and after[k]["state"] != s["state"]:
+            bad.append(("needed-step-reverted", f"step {s['label']!r}"))
+        if opt:
+            for f in vb.outputs(k):
+                if f["state"] in (FS.BUILT.value, FS.OUTDATED.value):
+                    exp_queue[f["label"]] = "hash"
+                elif f["state"] == FS.VOLATILE.value:
+                    exp_queue[f["label"]] = "none"
+    if dict(obs["to_be_deleted"]) != exp_queue:
+        bad.append(("revert-queue", f"queued {dict(obs['to_be_deleted'])}, outputs of unneeded optional steps {exp_queue}"))
+    return bad
+
+
+def random_multi_variant(rng):
+    """A random member of the family: 1-4 further consumers of f.txt with random need, sub-plan and
+    attachment; the higher-need consumer drops its edge in a random way."""
+    others = []
+    for i in range(rng.randint(1, 4)):
+        need = rng.choice([OPTIONAL, OPTIONAL, DEFAULT])
+        where = rng.choice(["root", "sub2"])
+        detached = where == "sub2" and rng.random() < 0.4
+        others.append((f"C{i + 2}", need, where, detached))
+    how = rng.choice(["no_amend", "no_amend", "partial_recycle", "creator_drops"])
+    name = "random:" + how + ":" + ",".join(f"{l}/{n}/{w}/{int(d)}" for l, n, w, d in others)
+    return (name, others, how)
+
+
+def run_multi_consumer_family(variants, fail, count=None):
+    """Run the cases and report through fail(signature, name, detail, witness)."""
+    from .wfutil import run
+    for variant in variants:
+        obs = run(multi_consumer_case(variant))
+        if count is not None:
+            count(variant, obs)
+        for symptom, detail in judge_multi_consumer(obs):
+            fail(f"multi-consumer-edge-drop:{symptom}", "multi-consumer:" + symptom,
+                 f"file f.txt of the OPTIONAL producer P has several consumers of different need; the higher-need one "
+                 f"dropped its edge ({variant[2]}) while {[(l, n) for l, n, _w, _d in variant[1]]} stayed: {detail}",
+                 {"family": "multi-consumer-edge-drop", "variant": variant[0], "others": [list(x) for x in variant[1]],
+                  "how": variant[2], "log": [list(x) for x in obs["log"]], "to_be_deleted": [list(x) for x in obs["to_be_deleted"]],
+                  "before_revert": obs["before_revert"]})
